@@ -65,6 +65,13 @@ def run(report, tier, seed, driver, proofs_ok):
         "(template, variant kind) pairs whose base template resolves."
     )
     base = [tmpl.gen_template(rng, max_depth=3) for _ in range(n)]
+    # corpus: a Fn::Sub variable map whose values mention the names of other variables of the same map
+    for order in (["Env", "Name"], ["Name", "Env"]):
+        loc = {"Env": "shadow", "Name": {"Fn::Join": ["-", ["app", {"Ref": "Env"}]]}}
+        t = {"Parameters": {"Env": {"Type": "String", "Default": "prod"}}, "Mappings": {}, "Conditions": {},
+             "Resources": {"Q": {"Type": "Custom::Q", "Properties": {"N": {"Fn::Sub": ["${Env}-${Name}", {k: loc[k] for k in order}]}}},
+                           "P": {"Type": "Custom::P", "Properties": {"E": {"Ref": "Env"}}}}}
+        base.insert(0, (t, {}))
     results = run_cases(report, driver, base, "C07")
     for t, extra, io, mo, m2 in results:
         report.case({"template": "…"}, None)
